@@ -1,3 +1,4 @@
+// vdrive c16
 package main
 
 // C16 driver: executes BitMatrix / BitArray operation histories on the real containers and records, after
@@ -9,6 +10,7 @@ import (
 	"strings"
 
 	"github.com/makiuchi-d/gozxing"
+	"verifharness/hlib"
 )
 
 type bitsEv struct {
@@ -26,37 +28,19 @@ type bitsEv struct {
 	Msg   string  `json:"msg,omitempty"`
 }
 
-func chunkBits(n int, get func(i int) bool) []int {
-	out := make([]int, (n+15)/16)
-	for i := 0; i < n; i++ {
-		if get(i) {
-			out[i/16] |= 1 << uint(i%16)
-		}
-	}
-	return out
-}
-
-func unchunk(cs []int, n int) []bool {
-	out := make([]bool, n)
-	for i := 0; i < n; i++ {
-		out[i] = i/16 < len(cs) && (cs[i/16]>>uint(i%16))&1 == 1
-	}
-	return out
-}
-
 func matrixState(m *gozxing.BitMatrix) (w, h int, st [][]int) {
 	w, h = m.GetWidth(), m.GetHeight()
 	st = make([][]int, h)
 	for y := 0; y < h; y++ {
 		yy := y
-		st[y] = chunkBits(w, func(i int) bool { return m.Get(i, yy) })
+		st[y] = hlib.ChunkBits(w, func(i int) bool { return m.Get(i, yy) })
 	}
 	return
 }
 
 func arrayOf(cs []int, n int) *gozxing.BitArray {
 	a := gozxing.NewBitArray(n)
-	for i, b := range unchunk(cs, n) {
+	for i, b := range hlib.Unchunk(cs, n) {
 		if b {
 			a.Set(i)
 		}
@@ -66,19 +50,11 @@ func arrayOf(cs []int, n int) *gozxing.BitArray {
 
 var bitsTokens = [][3]string{{"X", ".", "\n"}, {"X ", "  ", "\n"}, {"1", "0", "\r\n"}}
 
-func bytesToInts(s string) []int {
-	out := make([]int, len(s))
-	for i := 0; i < len(s); i++ {
-		out[i] = int(s[i])
-	}
-	return out
-}
-
-func init() {
-	register("c16", func(args []string) error {
+func main() {
+	{
 		m, _ := gozxing.NewBitMatrix(1, 1)
 		arr := gozxing.NewEmptyBitArray()
-		return execLoop(args, func(raw []byte) (interface{}, error) {
+		hlib.Main(func(raw []byte) (interface{}, error) {
 			var e bitsEv
 			if err := json.Unmarshal(raw, &e); err != nil {
 				return nil, err
@@ -90,7 +66,7 @@ func init() {
 					e.Err = 1
 				}
 			}
-			p := guard(func() {
+			p := hlib.Guard(func() {
 				switch e.Op {
 				// ---------------- BitMatrix
 				case "new":
@@ -108,7 +84,7 @@ func init() {
 				case "parsebool":
 					img := make([][]bool, a[1])
 					for y := range img {
-						img[y] = unchunk(e.B[y], a[0])
+						img[y] = hlib.Unchunk(e.B[y], a[0])
 					}
 					if nm, err := gozxing.ParseBoolMapToBitMatrix(img); err != nil {
 						e.Err = 1
@@ -119,7 +95,7 @@ func init() {
 					tk := bitsTokens[a[2]%3]
 					var sb strings.Builder
 					for y := 0; y < a[1]; y++ {
-						for _, b := range unchunk(e.B[y], a[0]) {
+						for _, b := range hlib.Unchunk(e.B[y], a[0]) {
 							if b {
 								sb.WriteString(tk[0])
 							} else {
@@ -152,7 +128,7 @@ func init() {
 				case "xor":
 					img := make([][]bool, a[1])
 					for y := range img {
-						img[y] = unchunk(e.B[y], a[0])
+						img[y] = hlib.Unchunk(e.B[y], a[0])
 					}
 					mask, err := gozxing.ParseBoolMapToBitMatrix(img)
 					if err != nil {
@@ -163,7 +139,7 @@ func init() {
 				case "setrow":
 					m.SetRow(a[0], arrayOf(e.B[0], m.GetWidth()))
 				case "get":
-					e.R = []int{b2i(m.Get(a[0], a[1]))}
+					e.R = []int{hlib.B2I(m.Get(a[0], a[1]))}
 				case "getrow":
 					var row *gozxing.BitArray
 					if a[1] >= 0 {
@@ -171,23 +147,23 @@ func init() {
 						row.SetRange(0, row.GetSize())
 					}
 					got := m.GetRow(a[0], row)
-					e.R = append([]int{got.GetSize()}, chunkBits(got.GetSize(), got.Get)...)
+					e.R = append([]int{got.GetSize()}, hlib.ChunkBits(got.GetSize(), got.Get)...)
 				case "enclosing":
-					e.R = nz(m.GetEnclosingRectangle())
+					e.R = hlib.NZ(m.GetEnclosingRectangle())
 				case "topleft":
-					e.R = nz(m.GetTopLeftOnBit())
+					e.R = hlib.NZ(m.GetTopLeftOnBit())
 				case "bottomright":
-					e.R = nz(m.GetBottomRightOnBit())
+					e.R = hlib.NZ(m.GetBottomRightOnBit())
 				case "dims":
 					e.R = []int{m.GetWidth(), m.GetHeight(), m.GetRowSize()}
 				case "tostring":
 					tk := bitsTokens[a[0]%3]
 					if a[0]%3 == 1 {
-						e.R = bytesToInts(m.String())
+						e.R = hlib.BytesToInts(m.String())
 					} else if tk[2] == "\n" {
-						e.R = bytesToInts(m.ToString(tk[0], tk[1]))
+						e.R = hlib.BytesToInts(m.ToString(tk[0], tk[1]))
 					} else {
-						e.R = bytesToInts(m.ToStringWithLineSeparator(tk[0], tk[1], tk[2]))
+						e.R = hlib.BytesToInts(m.ToStringWithLineSeparator(tk[0], tk[1], tk[2]))
 					}
 				case "reparse":
 					tk := bitsTokens[a[0]%3]
@@ -206,7 +182,7 @@ func init() {
 					}
 				case "bounds":
 					b := m.Bounds()
-					e.R = []int{b.Min.X, b.Min.Y, b.Max.X, b.Max.Y, b2i(m.ColorModel() == color.GrayModel)}
+					e.R = []int{b.Min.X, b.Min.Y, b.Max.X, b.Max.Y, hlib.B2I(m.ColorModel() == color.GrayModel)}
 				// ---------------- BitArray
 				case "anew":
 					arr = gozxing.NewBitArray(a[0])
@@ -233,14 +209,14 @@ func init() {
 				case "setbulk":
 					arr.SetBulk(a[0], uint32(a[1])|uint32(a[2])<<16)
 				case "aget":
-					e.R = []int{b2i(arr.Get(a[0]))}
+					e.R = []int{hlib.B2I(arr.Get(a[0]))}
 				case "nextset":
 					e.R = []int{arr.GetNextSet(a[0])}
 				case "nextunset":
 					e.R = []int{arr.GetNextUnset(a[0])}
 				case "isrange":
 					r, err := arr.IsRange(a[0], a[1], a[2] == 1)
-					e.R = []int{b2i(r)}
+					e.R = []int{hlib.B2I(r)}
 					fail(err)
 				case "tobytes":
 					buf := make([]byte, a[1]+2)
@@ -252,7 +228,7 @@ func init() {
 				case "sizes":
 					e.R = []int{arr.GetSize(), arr.GetSizeInBytes()}
 				case "astring":
-					e.R = bytesToInts(arr.String())
+					e.R = hlib.BytesToInts(arr.String())
 				default:
 					panic("unknown op " + e.Op)
 				}
@@ -264,11 +240,11 @@ func init() {
 				}
 			}
 			if e.K == "m" {
-				if p2 := guard(func() { e.W, e.H, e.St = matrixState(m) }); p2 != "" {
+				if p2 := hlib.Guard(func() { e.W, e.H, e.St = matrixState(m) }); p2 != "" {
 					e.Panic, e.W, e.H, e.St = 1, 1, 1, [][]int{{0}}
 				}
 			} else {
-				if p2 := guard(func() { e.N = arr.GetSize(); e.St = [][]int{chunkBits(e.N, arr.Get)} }); p2 != "" {
+				if p2 := hlib.Guard(func() { e.N = arr.GetSize(); e.St = [][]int{hlib.ChunkBits(e.N, arr.Get)} }); p2 != "" {
 					e.Panic, e.N, e.St = 1, 0, [][]int{{}}
 				}
 			}
@@ -277,23 +253,9 @@ func init() {
 			}
 			return e, nil
 		})
-	})
+	}
 }
 
 type errString string
 
 func (e errString) Error() string { return string(e) }
-
-func b2i(b bool) int {
-	if b {
-		return 1
-	}
-	return 0
-}
-
-func nz(a []int) []int {
-	if a == nil {
-		return []int{}
-	}
-	return a
-}
